@@ -17,6 +17,8 @@ func init() {
 	vfRegister("VfC15_reconcile_t", VfC15_reconcile_t)
 	vfRegister("VfC15_reconcile_qx", VfC15_reconcile_qx)
 	vfRegister("VfC15_reconcile_qw", VfC15_reconcile_qw)
+	vfRegister("VfC15_reconcile_qb", VfC15_reconcile_qb)
+	vfRegister("VfC15_reconcile_qbt", VfC15_reconcile_qbt)
 }
 
 func vfC15(nNH, nNHG, nTop, members int, kinds []int) {
@@ -24,6 +26,8 @@ func vfC15(nNH, nNHG, nTop, members int, kinds []int) {
 	T := rib.VfBuild("T.", nNH, nNHG, nTop, members, kinds, false)
 	vfC15Run(I, T, vfBool("target-only-instance"))
 }
+
+var vfC15MapOrder, vfC15MapOrderTearDown = false, false
 
 func vfC15Run(I, T *rib.VfWorld, extra bool) {
 	if extra {
@@ -38,7 +42,11 @@ func vfC15Run(I, T *rib.VfWorld, extra bool) {
 	var id atomic.Uint64
 	id.Store(base)
 	rec := New(NewLocalRIB(I.R), NewLocalRIB(T.R))
+	// the reconciler walks Go maps: within a group of operations (Delete.NHG, ...) the order is whatever the map
+	// gives, and the documented order says nothing about it - every iteration order is explored
+	vfMapOrder(vfC15MapOrder)
 	ops, err := rec.Reconcile(context.Background(), &id)
+	vfMapOrder(false)
 	vfAssert(err == nil, "C15:reconcile-succeeds")
 	if err != nil {
 		return
@@ -84,7 +92,9 @@ func vfC15Run(I, T *rib.VfWorld, extra bool) {
 	if !extra {
 		E := rib.VfEmpty()
 		rec3 := New(NewLocalRIB(E.R), NewLocalRIB(T.R))
+		vfMapOrder(vfC15MapOrderTearDown)
 		ops3, err := rec3.Reconcile(context.Background(), &id)
+		vfMapOrder(false)
 		vfAssert(err == nil, "C15:reconcile-succeeds")
 		if err == nil {
 			var seq3 []*spb.AFTOperation
@@ -109,6 +119,20 @@ func VfC15_reconcile_qx() { vfC15Run(rib.VfBuildSplit("I."), rib.VfBuildSplit("T
 // of any value: a group that keeps its member but changes the weight is replaced, and everything can be torn down
 // afterwards.
 func VfC15_reconcile_qw() { vfC15Run(rib.VfBuildWeighted("I."), rib.VfBuildWeighted("T."), false) }
+
+// reconcile_qb: backup groups - up to two groups on each side, either naming the other as its backup (chains and
+// cycles): groups that leave are deleted in whatever order the reconciler's maps give, and everything can be torn
+// down afterwards.
+func VfC15_reconcile_qb() {
+	vfC15MapOrder = true
+	vfC15Run(rib.VfBuildBackup("I."), rib.VfBuildBackup("T."), false)
+}
+
+// reconcile_qbt: as qb, and the tear-down round also runs in every map order.
+func VfC15_reconcile_qbt() {
+	vfC15MapOrder, vfC15MapOrderTearDown = true, true
+	vfC15Run(rib.VfBuildBackup("I."), rib.VfBuildBackup("T."), false)
+}
 
 func VfC15_reconcile_q() { vfC15(1, 1, 1, 1, rib.VfKinds(true, false, true)) }
 func VfC15_reconcile_t() { vfC15(2, 1, 1, 1, rib.VfKinds(true, false, false)) }
